@@ -25,7 +25,7 @@ RULE = (
     "that give one policy / record / transaction name different contents); each lowered and "
     "encoded 20x in-process, 3x in fresh processes for a quarter of them, TII emitted 3x by the tx3c binary with its "
     "default command line and, for two more command lines per program (1-3 --profile flags and 1-2 "
-    "--profile-env-file flags, names from a pool in which some differ only by case), 6x each in fresh processes; constant_sources (every operator over constant multi-asset values of four classes in min_amount / mint / burn / output); two of the three default emissions go onto an output path that already holds a file (a much longer one, a shorter one). "
+    "--profile-env-file flags, names from a pool in which some differ only by case), 6x each in fresh processes; references written as lists (two or three outputs of one transaction) in input, reference and collateral blocks; constant_sources (every operator over constant multi-asset values of four classes in min_amount / mint / burn / output); two of the three default emissions go onto an output path that already holds a file (a much longer one, a shorter one). "
     "Non-trivial = every case; distinct = distinct program"
 )
 ASSUMPTIONS = ["the tx3c binary is built from /repo's working tree into /verif/.cache/target-tx3c on every run"]
